@@ -128,6 +128,7 @@ type Exec struct {
 	Races         []Race
 	Steps         int
 	Threads       int
+	Diverged      bool // a recorded prefix could not be followed: executions are not reproducible (state survives between executions)
 	UsedSelect    bool // a select statement was executed (the reductions of mode A do not model its clause choice)
 	SleepBlocked  bool // the execution was cut because every enabled thread was in the sleep set (equivalent to explored ones)
 	ElisionBroken bool
@@ -172,9 +173,13 @@ type sched struct {
 	sleep    map[int]bool
 	trans    []Trans
 	usedSelect bool
+	diverged   bool
+	epoch      int64
 	lastOp   pending // the operation granted to the thread that ran last
 	blocked  bool
 }
+
+var epochCounter int64
 
 // S is the active scheduler (nil when no controlled execution is running).
 var S *sched
@@ -304,8 +309,10 @@ func (s *sched) pick() *thread {
 			idx = s.prefix[n]
 			fromPrefix = true
 			if idx < 0 || idx >= len(enabled) {
-				s.machErr = fmt.Sprintf("replay diverged: choice %d of prefix is %d but only %d threads are enabled", n, idx, len(enabled))
+				// the execution does not follow the recorded one: state outside the per-execution objects differs
+				s.diverged = true
 				idx = 0
+				fromPrefix = false
 			}
 		}
 		if s.cfg.Sleep && !fromPrefix {
@@ -513,6 +520,8 @@ func RunOnce(cfg Config, prefix []int, threads []ThreadSpec) *Exec {
 		s.raceSeen = map[string]bool{}
 	}
 	resetGlobalMutexes()
+	epochCounter++
+	s.epoch = epochCounter
 	S = s
 	defer func() { S = nil }()
 	for _, ts := range threads {
@@ -530,7 +539,7 @@ func RunOnce(cfg Config, prefix []int, threads []ThreadSpec) *Exec {
 	s.cur = first
 	first.wake <- struct{}{}
 	<-s.doneCh
-	ex := &Exec{UsedSelect: s.usedSelect, Trans: s.trans, Choices: s.choices, Points: s.points, Deadlock: s.deadlock && !s.blocked, SleepBlocked: s.blocked, Steps: s.steps, Threads: len(s.threads)}
+	ex := &Exec{Diverged: s.diverged, UsedSelect: s.usedSelect, Trans: s.trans, Choices: s.choices, Points: s.points, Deadlock: s.deadlock && !s.blocked, SleepBlocked: s.blocked, Steps: s.steps, Threads: len(s.threads)}
 	// collect stuck threads, then unwind them
 	for _, t := range s.threads {
 		if !t.done {
